@@ -9,6 +9,14 @@ def make_kvs(spec):
     dim, p, n = spec['dim'], spec['p'], spec['n']
     ps = p if isinstance(p, (list, tuple)) else [p] * dim
     ns = n if isinstance(n, (list, tuple)) else [n] * dim
+    if spec.get('breaks'):
+        # anisotropic / non-uniform coarse meshes: one list of breakpoints per axis
+        out = []
+        for d in range(dim):
+            br = spec['breaks'][d]
+            kv = [br[0]] * (ps[d] + 1) + list(br[1:-1]) + [br[-1]] * (ps[d] + 1)
+            out.append(bspline.KnotVector(np.array(kv, dtype=float), ps[d]))
+        return tuple(out)
     return tuple(bspline.make_knots(ps[d], 0.0, 1.0, ns[d]) for d in range(dim))
 
 
